@@ -104,7 +104,12 @@ def run(pid: str, tier: str, families=None, extra_requests=None, worker=None, va
         tasks = [{**t, **v} for t in tasks for v in variants]
     if task_filter:
         tasks = task_filter(tasks)
-    results = ksweep.run_tasks(tasks, worker=worker)
+    wall_budget = None
+    if tier != "quick":
+        import os
+
+        wall_budget = int(os.environ.get("VERIF_THOROUGH_BUDGET_S", "2400"))
+    results = ksweep.run_tasks(tasks, worker=worker, wall_budget=wall_budget)
     agg = {"paths": 0, "decisions": 0, "queries": 0, "solver_s": 0.0, "obligations": 0,
            "loop_iters": 0}
     refused = {}
@@ -182,7 +187,8 @@ def run(pid: str, tier: str, families=None, extra_requests=None, worker=None, va
         "requests_generated": len(generated),
         "requests_refused": len(refused),
         "refusal_kinds": _count(refused.values()),
-        "tasks": len(tasks),
+        "tasks": len(tasks), "tasks_completed": len(results),
+        "tasks_cut_by_wall_budget": len(tasks) - len(results), "wall_budget_s": wall_budget,
         "queries_discharged": agg["queries"],
         "solver_s": round(agg["solver_s"], 2),
         "safety_obligations": agg["obligations"],
